@@ -1,6 +1,7 @@
 package main
 
 import (
+	"go/token"
 	"go/types"
 	"regexp"
 	"encoding/json"
@@ -831,6 +832,12 @@ func sweepFuncs(p *Prog, have []string) []string {
 			continue
 		}
 		if f.Name() == "init" || strings.HasPrefix(f.Name(), "init#") || strings.HasPrefix(f.Name(), "init$") {
+			continue
+		}
+		// entry points only: exported functions and methods. Unexported helpers and closures without
+		// a contract are analysed where they are called (inlined with the caller's held locks), so
+		// extracting a helper that runs under its caller's lock is not an alarm.
+		if f.Parent() != nil || !token.IsExported(f.Name()) {
 			continue
 		}
 		if sp, ok := p.specs.Funcs[name]; ok && (sp.Trusted) {
